@@ -10,15 +10,47 @@ const ALPHA: [char; 18] = [
     '\\', '\'', '"', '\0', '\x08', '\t', '\n', '\r', '\x1a', '0', 'b', 't', 'z', 'n', 'r', 'a', 'é', '%',
 ];
 
-fn one(ctx: &Ctx, rep: &mut Report, n: u64, s: &str, exhaustive: bool) {
-    for d in Dialect::ALL {
-        rep.eval();
-        let b = qb(d);
-        let r = guard(|| {
+/// escape then unescape, with the backend reached in one of the ways a caller can hold it: behind
+/// `&dyn QueryBuilder`, as the struct itself, boxed, behind a double reference, or as a boxed trait object
+/// (method-call syntax throughout: whatever impl the compiler resolves for that receiver is the one checked)
+fn through(d: Dialect, how: u64, s: &str) -> (String, String) {
+    use sea_query::{EscapeBuilder, MysqlQueryBuilder, PostgresQueryBuilder, QueryBuilder, SqliteQueryBuilder};
+    macro_rules! both {
+        ($b:expr) => {{
+            let b = $b;
             let e = b.escape_string(s);
             let u = b.unescape_string(&e);
             (e, u)
-        });
+        }};
+    }
+    macro_rules! ways {
+        ($t:expr) => {
+            match how {
+                1 => both!($t),
+                2 => both!(Box::new($t)),
+                3 => both!(&&$t),
+                _ => {
+                    let boxed: Box<dyn QueryBuilder> = Box::new($t);
+                    both!(boxed)
+                }
+            }
+        };
+    }
+    if how == 0 {
+        return both!(qb(d));
+    }
+    match d {
+        Dialect::Mysql => ways!(MysqlQueryBuilder),
+        Dialect::Postgres => ways!(PostgresQueryBuilder),
+        Dialect::Sqlite => ways!(SqliteQueryBuilder),
+    }
+}
+
+fn one(ctx: &Ctx, rep: &mut Report, n: u64, s: &str, exhaustive: bool) {
+    for d in Dialect::ALL {
+        rep.eval();
+        let how = (n / 3 + d as u64) % 5;
+        let r = guard(|| through(d, how, s));
         match r {
             Ok((e, u)) => {
                 if u != s {
